@@ -279,9 +279,10 @@ Definition ext_ok (x : op) : bool :=
 Definition zip_inside (x : op) : bool :=
   match x with IngestZip _ z _ => inside (rel_loc z) | _ => true end.
 
-Lemma refuse_false_checked : forall p, refuse_location true p = false -> checked true p = true.
+Lemma refuse_false_checked : forall p, refuse_w true true p = false -> checked true p = true.
 Proof.
-  intros p H. unfold refuse_location in H. apply orb_false_iff in H. destruct H as [_ H].
+  intros p H. unfold refuse_w in H. apply orb_false_iff in H. destruct H as [H _].
+  unfold refuse_location in H. apply orb_false_iff in H. destruct H as [_ H].
   apply negb_false_iff in H. exact H.
 Qed.
 
@@ -293,11 +294,11 @@ Proof.
   destruct x as [id fr ext c0 | m ids fr ext src | ids a | ids rel | members z c0 | ids | | ids | ids | l' c' | rids];
     simpl in He, Hz; try (left; reflexivity).
   - destruct fr as [p| |]; [| left; reflexivity | left; reflexivity].
-    destruct (refuse_location true p) eqn:R.
+    destruct (refuse_w true true p) eqn:R.
     + right. unfold step, step_v. rewrite R. reflexivity.
     + left. simpl. apply writes_inside_root_p; [exact He | apply refuse_false_checked; exact R].
   - destruct fr as [p| |]; [| left; reflexivity | left; reflexivity].
-    destruct (refuse_location true p) eqn:R.
+    destruct (refuse_w true true p) eqn:R.
     + right. unfold step, step_v. rewrite R.
       destruct (held_any s ids); destruct (fget (fs s) src); reflexivity.
     + left. simpl. apply writes_inside_root_p; [exact He | apply refuse_false_checked; exact R].
